@@ -73,7 +73,7 @@ GrSeq == SetToSeq(UNION {{<<g, s>> : s \in GrStrings(g)} : g \in {Grammars[j] : 
                   \cup {<<"locator", s \o "@^-2..$+2">> : s \in LocProbes} \cup {<<"ftable", s>> : s \in FtProbes})
 
 NItems == IF Mode = "genbank" THEN Len(GbSeq) ELSE (Len(GrSeq) + Batch - 1) \div Batch
-Picked == SelectSeq([j \in 1..NItems |-> j], LAMBDA j : j % Stride = Offset % Stride)
+Picked == SelectSeq([j \in 1..NItems |-> j], LAMBDA j : (j + (j \div Stride) + (j \div (Stride * Stride))) % Stride = Offset % Stride)
 
 CaseJson(j) ==
   IF Mode = "genbank"
